@@ -61,6 +61,57 @@ theorem C15_data_changes_only_by_merge (s : State Scheme Data) (h : List Op) (i 
   obtain ⟨l', h1, h2, _, h4, h5⟩ := after_lib_unmerged W s h i l hl (fun src ow hmem => hm ⟨src, ow, hmem⟩)
   exact ⟨l', h1, h2, h4, h5⟩
 
+/-! ### A merge that is refused (added after the fourth seeded round; finding FA1)
+
+`mergeF` is a parameter: what `GroupLibrary.Update` leaves in the destination when it raises is not fixed by the model (it
+mirrors the code, where the groups merged before the error stay).  What the property needs of it — a library that merely
+attempted a merge is the library it was — is the hypothesis `MergeAtomic`; the harness checks it on the real `Update`
+(`rejected_merge` in harness/c15.py) and classifies the known way in which it fails. -/
+
+/-- a world whose merge is failure-atomic: a refused `Update` hands the destination's data back unchanged -/
+def MergeAtomic (W : World Scheme Data Val) : Prop :=
+  ∀ a b ow, (W.mergeF a b ow).2 ≠ none → (W.mergeF a b ow).1 = a
+
+/-- the statement one would like for every world: a merge that is refused changes no library's data -/
+def C15_rejected_merge_full (W : World Scheme Data Val) : Prop :=
+  ∀ (s : State Scheme Data) (dst src : Nat) (ow : Bool) (a b : Lib Scheme Data),
+    s.libs[dst]? = some a → s.libs[src]? = some b → (W.mergeF a.data b.data ow).2 ≠ none →
+    ∀ (i : Nat) (l : Lib Scheme Data), s.libs[i]? = some l →
+      ∃ l' : Lib Scheme Data, (step W s (.merge dst src ow)).1.libs[i]? = some l' ∧ l'.data = l.data
+
+/-- **T2 for a refused merge**: in a world whose merge is failure-atomic, a merge that raises changes no library's data
+(the destination's included), from any state. -/
+theorem C15_rejected_merge_frame (hW : MergeAtomic W) : C15_rejected_merge_full W := by
+  unfold C15_rejected_merge_full
+  intro s dst src ow a b ha hb hrej i l hl
+  have hlt : dst < s.libs.length := (List.getElem?_eq_some_iff.mp ha).1
+  simp only [step, ha, hb]
+  by_cases hi : dst = i
+  · subst hi
+    have hla : l = a := by rw [ha] at hl; exact (Option.some.inj hl).symm
+    subst hla
+    exact ⟨_, List.getElem?_set_self hlt, hW _ _ _ hrej⟩
+  · exact ⟨l, by rw [List.getElem?_set_ne hi]; exact hl, rfl⟩
+
+/-- a world whose merge keeps what it took over before it raised (what `GroupLibrary.Update` does: finding FA1) -/
+def leakyWorld : World Unit Nat Nat :=
+  { env := 0, f1Fixed := true, loadF := fun _ _ _ L => .ok ((), L), decompF := fun _ m => .ok m, estF := fun _ _ _ => none,
+    evalF := fun _ now _ _ _ _ => .ok now, mergeF := fun a b _ => (a + b, some 0) }
+
+/-- without that hypothesis the statement fails: two libraries, one refused merge, the destination's data have changed -/
+theorem C15_rejected_merge_full_false : ¬ C15_rejected_merge_full leakyWorld := by
+  intro h
+  unfold C15_rejected_merge_full at h
+  let s : State Unit Nat := { libs := [⟨(), 1, none, 0, .loaded 0⟩, ⟨(), 2, none, 1, .loaded 1⟩], ests := [], datadir := none, propsets := 0, schemas := 0 }
+  obtain ⟨l', h1, h2⟩ := h s 0 1 false ⟨(), 1, none, 0, .loaded 0⟩ ⟨(), 2, none, 1, .loaded 1⟩ rfl rfl (by simp [leakyWorld]) 0 _ rfl
+  simp [step, s, leakyWorld] at h1
+  subst h1
+  simp at h2
+
+/-- non-vacuity: a world that merges with `overwrite` and refuses without, leaving the destination alone -/
+example : MergeAtomic ({ leakyWorld with mergeF := fun a b ow => if ow then (a + b, none) else (a, some 0) } : World Unit Nat Nat) := by
+  intro a b ow h
+  cases ow <;> simp_all
 /-- **T2**: an estimate, once made, is never changed (its captured name, snapshot and mapping). -/
 theorem C15_frame_estimate (s : State Scheme Data) (h : List Op) (e : Nat) (est : Est Data) (he : s.ests[e]? = some est) :
     (after W s h).ests[e]? = some est :=
